@@ -90,7 +90,7 @@ def parts(obs):
 class C13(Base):
     ID = "C13"
     AREA = "unesc"
-    LEMMA_FILES = ["FluentProofs/UnescapeSpec.lean", "FluentProofs/Unescape.lean"]
+    LEMMA_FILES = ["FluentProofs/UnescapeSpec.lean", "FluentProofs/Unescape.lean", "FluentProofs/UnescapeFast.lean"]
     RULE = ("escape-token soup over 28 tokens (\\, \", u, U, hex and non-hex digits, +, 2/3/4-byte characters, "
             "surrogate/out-of-range/maximal digit groups, ready-made escapes) of length <= 12; systematic family "
             "prefix x escape (every kind, every truncation length, every non-hex position) x follower (multi-byte, "
